@@ -2,6 +2,7 @@
 //@include head.rs
 //@include select_lib.rs
 
+//@export-begin
 // age `a` (0 = newest) of the newest maximal element: it is maximal and everything newer is strictly smaller
 pub open spec fn newest_max_at(s: Seq<R>, a: int, m: R) -> bool {
 	&&& 0 <= a < s.len() && s[s.len() - 1 - a] == m
@@ -37,6 +38,7 @@ impl Method for HighestIndex {
 		&&& *out == post.index
 	}
 //@extract src/methods/highest_lowest_index.rs impl[Method for HighestIndex]::new
+	ensures (r is Ok) == (length != 0 && length != PeriodType::MAX),
 //@hint result
 	proof { if r is Ok { let s = r->Ok_0.window.view(); lemma_cloned_konst(s, length as nat, value); assert(s[s.len() - 1] == value); } }
 //@end
@@ -94,6 +96,7 @@ impl Method for LowestIndex {
 		&&& *out == post.index
 	}
 //@extract src/methods/highest_lowest_index.rs impl[Method for LowestIndex]::new
+	ensures (r is Ok) == (length != 0 && length != PeriodType::MAX),
 //@hint result
 	proof { if r is Ok { let s = r->Ok_0.window.view(); lemma_cloned_konst(s, length as nat, value); assert(s[s.len() - 1] == value); } }
 //@end
@@ -128,6 +131,8 @@ impl Method for LowestIndex {
 		proof { lemma_iter_next(pre_it, it0__, &self.window, vw); }
 //@end
 }
+
+//@export-end
 
 // C08: on a constant stream the newest element is always the newest extremum: the index is exactly 0
 pub proof fn highest_index_const_step(pre: HighestIndex, v: R, post: HighestIndex, out: PeriodType)
